@@ -15,6 +15,7 @@
 #include <tls.h>
 
 #include <errno.h>
+#include <string.h>
 #include <syslog.h>
 #include <unistd.h>
 
@@ -78,6 +79,8 @@ connect_mx(struct ips *mx, const struct in6_addr *outip4, const struct in6_addr 
 		}
 		if (dup2(socketd, 0) < 0) {
 			daneinfo_free(d, tlsa);
+			/* never exit without a status report */
+			write_status("Z4.3.0 internal error: can't dup2() socket");
 			net_conn_shutdown(shutdown_abort);
 		}
 
@@ -100,6 +103,14 @@ connect_mx(struct ips *mx, const struct in6_addr *outip4, const struct in6_addr 
 				/* something unexpected went wrong, assume that this is a local
 				 * problem that will eventually go away. */
 				daneinfo_free(d, tlsa);
+				/* never exit without a status report */
+				if (s == -ETIMEDOUT) {
+					write_status("Z4.4.1 connection to remote server timed out");
+				} else {
+					const char *tmp[] = { "Z4.3.0 ", strerror(-s) };
+
+					write_status_m(tmp, 2);
+				}
 				net_conn_shutdown(shutdown_abort);
 			}
 		}
